@@ -13,6 +13,8 @@ import (
 	"encoding/json"
 	"flag"
 	"fmt"
+	"math/rand"
+	"net"
 	"os"
 	"sort"
 	"strings"
@@ -194,6 +196,21 @@ func (t *ttrace) Emit(e vh.Ev) int {
 	return t.Trace.Emit(e)
 }
 
+// stableAddr returns a free loopback address below the ephemeral port range: the listeners of a trial are closed and
+// re-opened on the same port, which must not be taken meanwhile as the source port of somebody's outgoing connection.
+func stableAddr() string {
+	r := rand.New(rand.NewSource(time.Now().UnixNano() + int64(os.Getpid())*7919))
+	for i := 0; i < 2000; i++ {
+		a := fmt.Sprintf("127.0.0.1:%d", 12000+r.Intn(20000))
+		l, err := net.Listen("tcp", a)
+		if err == nil {
+			l.Close()
+			return a
+		}
+	}
+	return e2e.FreeAddr()
+}
+
 // ---------------------------------------------------------------- in-process
 
 type listenerInfo struct {
@@ -229,9 +246,9 @@ func main() {
 	defer h2stop()
 
 	lis := map[string]*listenerInfo{
-		"http1": {name: "c11h1", addr: e2e.FreeAddr(), dial: newH1},
-		"bolt":  {name: "c11bolt", addr: e2e.FreeAddr(), dial: newBolt},
-		"http2": {name: "c11h2", addr: e2e.FreeAddr(), dial: newH2},
+		"http1": {name: "c11h1", addr: stableAddr(), dial: newH1},
+		"bolt":  {name: "c11bolt", addr: stableAddr(), dial: newBolt},
+		"http2": {name: "c11h2", addr: stableAddr(), dial: newH2},
 	}
 	clusters := e2e.BuildClusters([]e2e.ClusterSpec{{Name: "uh1", Hosts: []string{hup}}, {Name: "ubolt", Hosts: []string{bup}}, {Name: "uh2", Hosts: []string{h2up}}})
 	boltRoutes := []e2e.RouteSpec{{Prefix: "/", Cluster: "ubolt", TimeoutMs: 120000, Extra: func(r *v2.Router) {
@@ -256,12 +273,23 @@ func main() {
 
 	evb := newBus()
 	var curMu sync.Mutex
-	cur := ""       // listener name of the running trial
+	cur := "" // listener name of the running trial
+	var lsMu sync.Mutex
+	lstates := map[string]string{} // listener name -> last state reported by the ln.state hook
+	lstate := func(n string) string { lsMu.Lock(); defer lsMu.Unlock(); return lstates[n] }
+	for _, l := range lis {
+		lstates[l.name] = "running"
+	}
 	swb := newBus() // go-away sweeps that have run to their end (one per listener and stop)
 	vh.Sink(func(name string, kv []interface{}) {
 		if name == "ln.goaway.done" {
 			swb.post("done")
 			return
+		}
+		if name == "ln.state" {
+			lsMu.Lock()
+			lstates[fmt.Sprint(kv[0])] = fmt.Sprint(kv[1])
+			lsMu.Unlock()
 		}
 		curMu.Lock()
 		c := cur
@@ -328,11 +356,21 @@ func main() {
 		}
 		// every trial starts from a serving proxy: bring the listeners back that the previous stop closed
 		for _, l := range lis {
+			if lstate(l.name) == "running" {
+				continue
+			}
 			ln := handler.FindListenerByName(l.name)
-			go ln.Start(nil, true)
-		}
-		for _, l := range lis {
-			vh.Must(e2e.WaitListen(l.addr, 10*time.Second), "listener restart "+l.name)
+			up := false
+			for try := 0; try < 50 && !up; try++ {
+				go ln.Start(nil, true)
+				for i := 0; i < 100 && !up; i++ {
+					time.Sleep(5 * time.Millisecond)
+					up = lstate(l.name) == "running"
+				}
+			}
+			if !up {
+				vh.Must(fmt.Errorf("listener %s could not be re-opened on %s", l.name, l.addr), "listener restart")
+			}
 		}
 		for i := 0; i < 500 && (active(li.name) != 0 || connsOpen(li.name) != 0); i++ {
 			time.Sleep(10 * time.Millisecond)
